@@ -35,6 +35,8 @@ import PyomaVerif.Ops.C15X
 import PyomaVerif.Ops.SsiArgs
 import PyomaVerif.Ops.GeoFile
 import PyomaVerif.Ops.Defaults
+import PyomaVerif.Ops.C18Whole
+import PyomaVerif.Ops.C20Facts
 /-! Line-protocol driver: one JSON object per line in, one JSON value per line out. -/
 open Lean PV PV.Codec
 
@@ -57,6 +59,8 @@ def allOps : List (String × (Json → Except String Json)) :=
   ++ PV.Ops.SsiArgs.ops
   ++ PV.Ops.GeoFile.ops
   ++ PV.Ops.Defaults.ops
+  ++ PV.Ops.C18Whole.ops
+  ++ PV.Ops.C20Facts.ops
 
 def handle (line : String) : String :=
   match Json.parse line with
